@@ -23,15 +23,17 @@ ASSUMPTIONS = [
 
 _ORACLE = None
 _CRIT = None
+_TARGETS = None
 RUN_TIMEOUT = 240
 
 
 def worker_init(tier):
-    global _ORACLE, _CRIT
+    global _ORACLE, _CRIT, _TARGETS
     import kingdon
     from .oracle import Oracle
     _ORACLE = Oracle()
     _CRIT = sorted({c.co_qualname for c in engine.critical_codes(engine.discover_code())})
+    _TARGETS = [list(x) for x in engine.fault_targets(engine.discover_code())]
 
 
 def directed_files():
@@ -56,7 +58,7 @@ def make_trace(seed, index, tier):
         return tr
     rs = run_seed_of(seed, index)
     rng = random.Random(rs)
-    tr = gen_trace(rng, tier, _CRIT)
+    tr = gen_trace(rng, tier, _CRIT, targets=_TARGETS)
     tr['seed'] = seed
     tr['run'] = index
     tr['tier'] = tier
